@@ -592,7 +592,7 @@ func planC13(tier string, seed int64) (*core.Plan, error) {
 	if every {
 		nTrees = 6
 	}
-	fixtures := []string{"M0", "S0", "S1", "S2", "S7", "S8"}
+	fixtures := []string{"M0", "S0", "S1", "S2", "S7", "S8", "S6"}
 	p := &core.Plan{Property: "C13", Tier: tier, Seed: seed, Level: "exploration", Isolated: true, CaseTimeout: 20 * time.Second,
 		Models: []core.ModelRun{{TLC: core.TLCRun{Module: "RobustModel", Workers: 4},
 			Description: "the robustness contract as a state machine (request of every shape, admitted outcomes, reread of the stored data): no reachable crash state, shape mismatches answered with an error, stored data readable after every answer"}},
